@@ -264,7 +264,10 @@ def part_newline(ctx, eng):
             if mm:
                 head, unit = bb, mm.group(1)
     if head is None:
-        raise Inconclusive('convert_to_windows_newlines loop head not found')
+        # not a character / byte scanning loop: the whole function is run over symbolic short texts instead
+        ctx.notes.append('convert_to_windows_newlines has no character-scanning loop: decided as a whole function over texts of up to %d characters' % (3 if ctx.tier == 'quick' else 4))
+        part_windows_whole(ctx, eng, cw, rp, 3 if ctx.tier == 'quick' else 4)
+        return part_newline_rest(ctx, eng, rp)
     # the scan may run over the characters or over the UTF-8 bytes of the text; the harness follows the code's choice
     ety, ebits = ('char', 32) if unit == 'Chars' else ('u8', 8)
     if unit == 'Bytes':
@@ -341,6 +344,59 @@ def part_newline(ctx, eng):
         want_keep = z3.And(cur.e != LF, z3.Not(z3.And(cur.e == CR, has_next, nxt.e == LF)), z3.BoolVal(len(chars) == 1), *([same(chars[0])] if len(chars) == 1 else [z3.BoolVal(False)]))
         ctx.prop('windows/p%d/changes-nothing-but-terminators' % pi, o.state.pc, z3.Not(z3.Or(want_lf, want_drop, want_keep)), mv, rp)
     eng.stubs = []
+    part_newline_rest(ctx, eng, rp)
+
+
+def part_windows_whole(ctx, eng, cw, rp, N):
+    """convert_to_windows_newlines over symbolic ASCII texts of every length 0..N (strmodel.py): the result is the text with every LF replaced by
+    CR LF and a CR directly before an LF dropped, nothing else changed - compared per path and per feasible classification of the characters."""
+    import strmodel
+    LF, CR = 10, 13
+    nob = 0
+    for n in range(0, N + 1):
+        eng.stubs = []
+        M = strmodel.Model(eng)
+        M.install()
+        text = strmodel.sym_text(n)
+        st = State()
+        for f in strmodel.ascii_facts(text):
+            st.assume(f)
+        arg = eng.ref_to(st, text, False, 'formatted_text')
+        outs = ctx.check_outcomes(eng.run(cw, [arg], st), 'convert_to_windows_newlines(whole)')
+        cs = list(text.items)
+        mv = [c.e for c in cs]
+        for pi, o in enumerate(outs):
+            tag = 'windows-whole/n%d/p%d' % (n, pi)
+            if o.kind != 'ret':
+                ctx.prop(tag + '/no-panic', o.state.pc, z3.BoolVal(True), mv, rp, twin=False)
+                continue
+            out = deref(eng, o.state, o.value)
+            if not isinstance(out, Seq):
+                raise Inconclusive('convert_to_windows_newlines returned %r' % (out,))
+            got = [c.e for c in out.items]
+            base = o.state.fork()
+            for (s1, lf) in M.fork_mask(eng, base, cs, lambda ch: ch.e == LF):
+                for (s2, cr) in M.fork_mask(eng, s1.fork(), cs, lambda ch: ch.e == CR):
+                    exp = []
+                    for i, ch in enumerate(cs):
+                        if lf[i]:
+                            exp += [z3.BitVecVal(CR, 32), z3.BitVecVal(LF, 32)]
+                        elif cr[i] and i + 1 < n and lf[i + 1]:
+                            pass
+                        else:
+                            exp.append(ch.e)
+                    same = z3.And([g == x for g, x in zip(got, exp)]) if len(got) == len(exp) else z3.BoolVal(False)
+                    if len(got) == len(exp) == 0:
+                        same = z3.BoolVal(True)
+                    nob += 1
+                    ctx.prop(tag + '/c%d/changes-nothing-but-terminators' % nob, s2.pc, z3.Not(same), mv, rp, twin=False)
+        eng.stubs = []
+    if not nob:
+        raise Inconclusive('convert_to_windows_newlines(whole): nothing explored')
+
+
+def part_newline_rest(ctx, eng, rp):
+    NS = 'src/formatting/newline_style.rs'
 
     # -- Unix conversion = str::replace(CRLF, LF); decided with the solver's string theory on bounded strings
     cu = eng.find('convert_to_unix_newlines', free=True)
